@@ -136,6 +136,33 @@ def run(ctx):
                     run.finding(Finding(R2, ENC, "Slatepack.%s still holds the sender when mode = 1 and is serialised by an encoder" % ".".join(path), site=f.loc(),
                                         detail="encoders reading it: %s" % [pp.short(k) for k in readers]))
 
+    if f:
+        # every recipient gets a key slot: the keys handed to age derive from the whole `recipients` parameter through
+        # map/collect only (no slicing, take, skip, filter, first, ...)
+        wr = [(b, t) for b, t in f.calls() if (t.get("f") or "").endswith("Encryptor::with_recipients")]
+        held = len(wr) == 1
+        chain = []
+        if held:
+            ALLOWED = ("IntoIterator::into_iter", "Iterator::map", "Iterator::collect", "::iter", "Iterator::cloned")
+            o = wr[0][1]["a"][0]
+            for _ in range(12):
+                pr = vf.producers(f, o)
+                calls = [x for x in pr if x[0] == "call"]
+                if any(x[0] == "arg" and x[1] == 2 for x in pr) and not calls:
+                    chain.append("recipients")
+                    break
+                if len(calls) != 1 or not calls[0][1].endswith(ALLOWED):
+                    held = False
+                    chain.append("?" + (calls[0][1].split("::")[-1] if calls else "none"))
+                    break
+                chain.append(calls[0][1].split("::")[-1])
+                o = f.bbs[calls[0][2]]["t"]["a"][0]
+            else:
+                held = False
+            held = held and chain and chain[-1] == "recipients"
+        run.instance(R1, {"fn": "try_encrypt_payload", "obligation": "age::Encryptor::with_recipients receives one key per element of the recipients parameter", "chain": chain}, held=held)
+        if not held:
+            run.finding(Finding(R1, ENC, "the recipient keys handed to the encryptor are not derived from the whole recipients list", site=f.loc(), detail=" <- ".join(chain)))
     R3 = "C10.R3"
     run.rule(R3, "decryption gate: payload/sender/mode rewritten only after Decryptor::decrypt Ok; errors are returned", floor=4)
     d = ctx.fn(DEC)
